@@ -135,3 +135,21 @@ package sliceio
 //@   requires s != nil
 //@   ensures  end-of-stream-is-not-an-error: result == ite(s.err == EOF, nil, s.err)
 //@   modifies nothing
+
+// PprofReader (every pipelined operator's reader is wrapped in one) reads its underlying reader exactly once per
+// call and passes the result through.
+//@ func sliceio.(*PprofReader).Read (ctx, frame) (n, err)
+//@   requires r != nil && r.Reader != nil
+//@   may_panic
+//@   ensures  passes-through: r.Reader.nreads == old(r.Reader.nreads) + 1 && n == r.Reader.lastN && err == r.Reader.lastErr
+//@   modifies SReader.nreads, SReader.lastN, SReader.lastErr, rowsSupplied, sawRowsWithEOF, ColMem
+
+// multiReader.Close closes every reader it still holds, exactly once each, reports the first close error and forgets
+// the readers.
+//@ func sliceio.(*multiReader).Close () (err)
+//@   requires m != nil
+//@   ensures  all-forgotten: forall(i, 0, len(m.q), m.q[i] == nil)
+//@   ensures  each-closed: forall(i, 0, len(m.q), implies(old(m.q[i]) != nil, old(m.q[i]).zcloses > old(m.q[i].zcloses)))
+//@   modifies m.q[:], WCloser.zcloses, WCloser.zcloseErr
+//@   loop 1 invariant forall(j, 0, range_idx, m.q[j] == nil) && forall(j, range_idx, len(m.q), m.q[j] == old(m.q[j])) && len(m.q) == old(len(m.q))
+//@   loop 1 invariant forall(j, 0, len(m.q), old(m.q[j]).zcloses >= old(m.q[j].zcloses)) && forall(j, 0, range_idx, implies(old(m.q[j]) != nil, old(m.q[j]).zcloses > old(m.q[j].zcloses)))
